@@ -60,8 +60,13 @@ impl<'a> ArxmlParser<'a> {
 // callees of check_arxml_header that are not under contract here (C18 covers ElementName::from_bytes; parse_attribute_text and
 // parse_file_header are string-layer / version code): arbitrary results, no panic assumed
 pub struct Attribute { pub opaque: u8 }
+#[derive(Clone, Copy)]
 pub struct ElementType { pub opaque: u8 }
 pub struct SmallVecAttr { pub opaque: u8 }
+impl SmallVecAttr {
+    #[verifier::external_body]
+    pub fn new() -> (r: Self) { unimplemented!() }
+}
 #[verifier::external_body]
 pub fn vx_root_type() -> ElementType { unimplemented!() }
 impl ElementName {
@@ -69,8 +74,14 @@ impl ElementName {
     pub fn from_bytes(b: &[u8]) -> (r: Result<ElementName, ()>) { unimplemented!() }
 }
 impl<'a> ArxmlParser<'a> {
+    // parts of parse_attribute_text that are abstracted as whole blocks (they contain no index arithmetic): looking an
+    // attribute up / validating its value / recording it; the final "anything left?" finding; the required-attributes loop
     #[verifier::external_body]
-    pub fn parse_attribute_text(&mut self, elemtype: ElementType, attributes_text: &[u8]) -> (r: Result<SmallVecAttr, AutosarDataError>) { unimplemented!() }
+    pub fn vx_attribute(&mut self, elemtype: ElementType, name_part: &[u8], value_part: &[u8], attributes: &mut SmallVecAttr) -> (r: Result<(), AutosarDataError>) { unimplemented!() }
+    #[verifier::external_body]
+    pub fn vx_attr_value_error(&mut self, attributes_text: &[u8]) -> (r: Result<(), AutosarDataError>) { unimplemented!() }
+    #[verifier::external_body]
+    pub fn vx_required_attributes(&mut self, elemtype: ElementType, attributes: &SmallVecAttr) -> (r: Result<(), AutosarDataError>) { unimplemented!() }
     #[verifier::external_body]
     pub fn parse_file_header(&mut self, attributes: &SmallVecAttr) -> (r: Result<(), AutosarDataError>) { unimplemented!() }
 }
@@ -117,6 +128,10 @@ def fns():
                         # lexer ran to the end of the buffer without meeting another token
                         'old(self).strict && r is Ok ==> final(lexer).bufpos == final(lexer).buffer.len() && final(self).warnings@ == old(self).warnings@',
                         '!old(self).strict && r is Ok ==> final(self).warnings@ == old(self).warnings@ || final(self).warnings@ == old(self).warnings@.push(parser_err(old(self), ArxmlParserError::AdditionalDataError))']),
+        FnSpec('parse_attribute_text', F, impl=IMPL_P, ret='r', pre=pre_attribute_text, body_sub=R35,
+               sig_sub=[(r'Result<SmallVec<\[Attribute; 1\]>, AutosarDataError>', 'Result<SmallVecAttr, AutosarDataError>')],
+               loops={0: dict(invariant=['rem.len() <= attributes_text.len()'], decreases='rem.len()'),
+                      1: dict(invariant=['nextattr_start <= rem.len()', 'endquote_pos < rem.len()'], decreases='rem.len() - nextattr_start')}),
         FnSpec('check_arxml_header', F, impl=IMPL_P, ret='r', sig_sub=[(r'pub\(crate\) fn', 'pub fn')],
                body_sub=[(r'while let (Ok\(ArxmlEvent::Comment\(\.\.\)\)) = (\w+) \{', lambda m: 'while matches!(%s, %s) {' % (m.group(2), m.group(1)), 'R29'),
                          (r'ElementType::ROOT', lambda m: 'vx_root_type()', 'R29')],
@@ -124,6 +139,59 @@ def fns():
                loops={0: dict(invariant=['lexer.inv()'],
                               decreases='lexer.measure() + (if matches!(arxmlevent, Ok(ArxmlEvent::Comment(..))) { 1int } else { 0int })')}),
     ]
+
+
+def _match_brace(text, i):
+    depth = 0
+    k = i
+    while k < len(text):
+        if text[k] == '{':
+            depth += 1
+        elif text[k] == '}':
+            depth -= 1
+            if depth == 0:
+                return k
+        k += 1
+    raise Lost('unbalanced braces')
+
+
+def pre_attribute_text(text):
+    """Block-level abstraction for parse_attribute_text (stated in the evidence): the attribute lookup/validation block
+    `if let Ok(attr_name) = AttributeName::from_bytes(..) {..} else {..}` and the closing `for (name, _ctype, required) in
+    elemtype.attribute_spec_iter() {..}` are replaced by calls with arbitrary results.  Fails closed if either block indexes a
+    slice (then it is not free of the arithmetic this unit is about)."""
+    out = []
+    a = text.find('if let Ok(attr_name) = AttributeName::from_bytes(attr_name_part) {')
+    if a < 0:
+        raise Lost('parse_attribute_text: attribute block not found')
+    e1 = _match_brace(text, text.index('{', a))
+    m = re.match(r'\s*else\s*\{', text[e1 + 1:])
+    if not m:
+        raise Lost('parse_attribute_text: else branch of the attribute block not found')
+    e2 = _match_brace(text, e1 + 1 + m.end() - 1)
+    block = text[a:e2 + 1]
+    if re.search(r'\w\[[^\]]*\.\.|\w\[\w+( [+-] \d+)?\]', block):
+        raise Lost('parse_attribute_text: the abstracted attribute block indexes a slice')
+    text = text[:a] + 'self.vx_attribute(elemtype, attr_name_part, attr_value_part, &mut attributes)?;' + text[e2 + 1:]
+    out.append(('R35:attribute-block', 1))
+    b = text.find('for (name, _ctype, required) in elemtype.attribute_spec_iter() {')
+    if b < 0:
+        raise Lost('parse_attribute_text: required-attributes loop not found')
+    e3 = _match_brace(text, text.index('{', b))
+    if re.search(r'\w\[[^\]]*\.\.|\w\[\w+( [+-] \d+)?\]', text[b:e3 + 1]):
+        raise Lost('parse_attribute_text: the abstracted loop indexes a slice')
+    text = text[:b] + 'self.vx_required_attributes(elemtype, &attributes)?;' + text[e3 + 1:]
+    out.append(('R35:required-attributes-loop', 1))
+    return text, out
+
+
+R35 = [
+    (r'SmallVec::new\(\)', lambda m: 'SmallVecAttr::new()', 'R35'),
+    (r"while let Some\((\w+)\) = (\w+)\.iter\(\)\.position\(\|c\| \*c == (b'.')\) \{", lambda m: 'loop { let %s = match vx_position_eq(%s, %s) { Some(vx_p) => vx_p, None => { break; } };' % (m.group(1), m.group(2), m.group(3)), 'R35'),
+    (r'let Some\((\w+)\) = (\w+)\.iter\(\)\.position\(\|c\| c == &(\w+)\) else \{[^}]*break;\s*\};', lambda m: 'let %s = match vx_position_eq(%s, %s) { Some(vx_p) => vx_p, None => { break; } };' % (m.group(1), m.group(2), m.group(3)), 'R35'),
+    (r'self\.optional_error\(ArxmlParserError::AttributeValueError \{[^}]*\}\)\?;', lambda m: 'self.vx_attr_value_error(attributes_text)?;', 'R35'),
+    (r'!(\w+)\.is_empty\(\)', lambda m: '!(%s.len() == 0)' % m.group(1), 'R16'),
+]
 
 
 def version_enum(repo_dir):
@@ -161,7 +229,8 @@ def extend(unit, repo_dir):
     unit.wrap[IMPL_P] = "impl<'a> ArxmlParser<'a>"
     unit.dropped = list(unit.dropped) + [
         'ArxmlParser: real field list; WeakElement/ElementName/ArxmlParserError are opaque stand-ins (the funnel never inspects them); AutosarVersion is the real enum text',
-        'PathBuf::clone is specified to return an equal value']
+        'PathBuf::clone is specified to return an equal value',
+        'parse_attribute_text: the attribute lookup/validation block and the required-attributes loop (no index arithmetic; checked) are replaced by calls with arbitrary results (rule R35); SmallVec is an opaque stand-in -- what is proved is the slicing arithmetic and termination of the splitting loops for every byte string']
     return unit
 
 
